@@ -72,8 +72,13 @@ GNext == /\ Len(form) < MaxParts
          /\ \E p \in PartsAt(Len(form) + 1) : form' = Append(form, p)
 GSpec == GInit /\ [][GNext]_form
 
+\* targets that refuse unknown fields: one field of the form's natural target left out, or both (emitted only; the model of layer (b)
+\* knows the permissive targets)
+DenyTargets(f) == IF FAMILY \in {"delim", "headers"} THEN {} ELSE
+                  {[a |-> Natural(f, NameA), b |-> "none", dflt |-> FALSE, deny |-> TRUE], [a |-> "none", b |-> Natural(f, NameB), dflt |-> FALSE, deny |-> TRUE],
+                   [a |-> "none", b |-> "none", dflt |-> FALSE, deny |-> TRUE], [a |-> Natural(f, NameA), b |-> Natural(f, NameB), dflt |-> FALSE, deny |-> TRUE]}
 Emit == \A o \in OptsFor(form) : FormOK(form, o) =>
-          \A t \in TargetsFor(form) : PrintT(ToJson(Scn(form, o, t)))
+          \A t \in TargetsFor(form) \cup DenyTargets(form) : PrintT(ToJson(Scn(form, o, t)))
 
 \* ---- bounded self-check (MC_Multipart*.cfg): no /repo involved
 RoundTripInv == \A o \in OptsFor(form) : FormOK(form, o) => RoundTrip(form, o)
